@@ -193,7 +193,9 @@ func runRef(seed uint64, cfg *C19Config, prog []Op, st *C19Stats) ([]Op, []stepR
 				d := fmt.Sprintf("%s (slot %d, not a destination) changed its %s", op.Name, i, diffSnap(Snap{Meta: a.Meta, Hist: a.Hist}, Snap{Meta: b.Meta, Hist: b.Hist}))
 				return out, recs, &Violation{Property: "C19", Kind: "frame", Step: k, FailOp: op.Name, Detail: d + "; now " + fmt.Sprintf("%+v", fullSnap(w.slots[i])), Class: "meta:" + diffSnap(Snap{Meta: a.Meta, Hist: a.Hist}, Snap{Meta: b.Meta, Hist: b.Hist})}
 			}
-			if (a.Data != b.Data || a.Mask != b.Mask) && !sharesDest(i) {
+			// (decoding into an existing tensor replaces the receiver's contents: tensors that shared
+			// its storage are not destinations of that)
+			if (a.Data != b.Data || a.Mask != b.Mask) && (!sharesDest(i) || op.Name == "DecodeInto") {
 				d := fmt.Sprintf("%s changed the %sof slot %d, which is not a destination and shares no storage with one", op.Name, diffSnap(Snap{Data: a.Data, Mask: a.Mask}, Snap{Data: b.Data, Mask: b.Mask}), i)
 				return out, recs, &Violation{Property: "C19", Kind: "frame", Step: k, FailOp: op.Name, Detail: d, Class: "data:" + diffSnap(Snap{Data: a.Data, Mask: a.Mask}, Snap{Data: b.Data, Mask: b.Mask})}
 			}
